@@ -359,6 +359,8 @@ inductive Op where
   | ldrop (l : Nat)
   | mk (a kind dt it n : Nat) (v : Int)
   | copy (a b full : Nat)
+  | lmove (d src : Nat)
+  | lvec (k : Nat)
 deriving Repr
 
 /-- `SparseMatrixBanded` constructor: number of used elements for `rows = cols = r`, offsets `r-1+j` -/
@@ -377,6 +379,9 @@ def layKind (kind : Nat) : Nat := if kind = 4 then 1 else 0
 def layoutInds : Option Layout → List Ptr
   | none => []
   | some o => o.inds
+
+/-- the state a moved-from `SparseLayout` is left in: all three vectors were moved out -/
+def Layout.movedFrom (L : Layout) : Layout := { L with inds := [], indsSize := [], sidx := [] }
 
 /-- a layout object can only be assigned a layout of its own type -/
 def layCompat (old : Option Layout) (lk it : Nat) : Bool :=
@@ -601,6 +606,23 @@ def step (s : State) (op : Op) : Except Abort State :=
         .ok ({ s with pool := copyArrs (copyArrs s.pool ip) ep }.setSlot a
               (some (if full != 0 then { ca with sidx := cb.sidx } else ca)))
     | _, _ => .error .badop
+  | .lmove d src =>
+    -- `SparseLayout l_d(std::move(l_src))` (slot `d` free: move CONSTRUCTION, nothing to release) or
+    -- `l_d = std::move(l_src)` (move assignment: self-move is a no-op, otherwise the arrays held so far are
+    -- released); the pointers travel WITHOUT any counter change and the source is left holding nothing
+    match s.lay src with
+    | none => .error .badop
+    | some Ls =>
+      if d ≥ s.lays.length then .error .badop
+      else if d = src then .ok s
+      else if !layCompat (s.lay d) Ls.lk Ls.it then .error .badop
+      else match releaseAll s.pool (layoutInds (s.lay d)) with
+        | .error e => .error e
+        | .ok p1 => .ok (({ s with pool := p1 }.setLay d (some Ls)).setLay src (some Ls.movedFrom))
+  | .lvec _ =>
+    -- every live layout is moved into a `std::vector<SparseLayout>` (reallocations move-construct the stored
+    -- objects) or into a by-value class member and moved back: the logical state must be unchanged
+    .ok s
   | .ldrop l =>
     match s.lay l with
     | none => .error .badop
